@@ -64,10 +64,13 @@ class Acc:
         self.samples = []
         self.driver_err = None
 
-    def classify(self, ops, results):
+    def classify(self, ops, results, differs=()):
+        """a failing input is excused by a known finding only when its matcher accepts it AND the model — which reproduces the
+        recorded behaviour of the unchanged code — still agrees with the implementation on it: a known finding cannot mask a
+        change of behaviour inside its own region"""
         P = self.P
         for b, res in results.items():
-            for op, (out, viol) in zip(ops, res):
+            for i, (op, (out, viol)) in enumerate(zip(ops, res)):
                 if viol is None:
                     continue
                 hit = None
@@ -76,6 +79,9 @@ class Acc:
                     if m and m(op, b, out, viol):
                         hit = f
                         break
+                if hit and (b, i) in differs:
+                    viol = f"{viol} [inside the region of known finding {hit['id']}, but the implementation no longer behaves as recorded there: model {differs[(b, i)]!r}]"
+                    hit = None
                 if hit:
                     self.known.setdefault(hit["id"], [hit, 0, (op, b, out, viol)])[1] += 1
                 else:
@@ -87,6 +93,7 @@ class Acc:
         P = self.P
         results = impl.run(ops)
         norm = getattr(P, "normalize", None)
+        differs = {}
         if use_driver:
             for b in P.BACKENDS:
                 res = results[b]
@@ -116,10 +123,11 @@ class Acc:
                     if norm is not None:
                         a, b2 = norm(ops[i], a), norm(ops[i], b2)
                     if a != b2:
+                        differs[(b, i)] = o[:200]
                         self.n_diffs += 1
                         if len(self.diffs) < 2000:
                             self.diffs.append(dict(backend=b, op=list(ops[i]), model=o, impl=res[i][0], line=P.line(ops[i], b)))
-        self.classify(ops, results)
+        self.classify(ops, results, differs)
         if count:
             self.n_ops += len(ops)
             b0 = P.BACKENDS[0]
